@@ -174,6 +174,7 @@ func (e *Enc) encodeBody(fr *Frame, st *State, args []Val, freeVars []Val) []ret
 
 func (e *Enc) enterLoop(fr *Frame, li *loopInfo, pre *State) *State {
 	ec := e.evalCtx(fr, pre)
+	ec.loopPre = pre
 	label := fmt.Sprintf("%sloop%d", fr.prefix, li.ordinal)
 	// invariants hold on entry
 	if li.spec != nil {
@@ -220,6 +221,19 @@ func (e *Enc) enterLoop(fr *Frame, li *loopInfo, pre *State) *State {
 		}
 		head.lazyAll = true
 	}
+	if mod.allScalar {
+		for n := range e.base {
+			if strings.HasPrefix(n, "H_") {
+				mod.heaps[n] = true
+			}
+		}
+		for n := range pre.heaps {
+			if strings.HasPrefix(n, "H_") {
+				mod.heaps[n] = true
+			}
+		}
+		head.lazyScalar = true
+	}
 	var hns []string
 	for n := range mod.heaps {
 		hns = append(hns, n)
@@ -251,11 +265,17 @@ func (e *Enc) enterLoop(fr *Frame, li *loopInfo, pre *State) *State {
 			e.assumeValid(head, v, a.Type().(*types.Pointer).Elem())
 		}
 	}
+	for _, n := range hns {
+		if h, ok := head.heaps[n]; ok && strings.HasPrefix(n, "H_") {
+			e.heapWF(h, head.next)
+		}
+	}
 	li.headSt = head.clone()
 	// automatic invariant for range-over-slice loops: -1 <= idx < len
 	e.autoRangeInvariant(fr, li, head)
 	if li.spec != nil {
 		hc := e.evalCtx(fr, head)
+		hc.loopPre = pre
 		for _, inv := range li.spec.Invariants {
 			c, err := hc.evalBool(inv.Expr)
 			if err != nil {
@@ -322,6 +342,7 @@ func (e *Enc) backEdge(fr *Frame, li *loopInfo, st *State, pos token.Pos) {
 	label := fmt.Sprintf("%sloop%d", fr.prefix, li.ordinal)
 	if li.spec != nil {
 		ec := e.evalCtx(fr, st)
+		ec.loopPre = li.preSt
 		for i, inv := range li.spec.Invariants {
 			c, err := ec.evalBool(inv.Expr)
 			if err != nil {
